@@ -25,9 +25,10 @@ Definition opb_clause_line (c : clause) : line :=
 (** [as_opb_string]: ['\n'.join(... for clause in reversed(self._vals))] *)
 Definition opb_lines (cls : cnf) : file := join_lines (map opb_clause_line (rev cls)).
 
-(** The right-hand side written for a GT request.  THE CODE WRITES [k - 1];
-    "more than k" needs [k + 1].  Repairing /repo is this one token. *)
-Definition gt_rhs (k : Z) : Z := k - 1.
+(** The right-hand side written for a GT request: [' >= ' + str(request.k + 1)].
+    (The pinned tree wrote [k - 1]; repaired in /repo by commit 00a2ec8.  The
+    printers below take it as a parameter so that this stays a one-token edit.) *)
+Definition gt_rhs (k : Z) : Z := k + 1.
 
 (** [' = ' + str(k)], [' <= ' + str(k - 1)], [' >= ' + str(<gt k>)] *)
 Definition cmp_toks (gt : Z -> Z) (kd : kind) (k : Z) : line :=
